@@ -200,6 +200,15 @@ def r16_2(cx):
                     ok = True
             cx.check(ok, 'find-some', find, find.loc(pos.bb, pos.idx), 'Some(item) only where is_erased(item) is false',
                      fail_detail='find can return an item without having tested is_erased on it')
+    # ... or the candidate goes through Option::filter(|item| !is_erased(item)) on its way out
+    for c in find.calls('filter'):
+        if 'ption' in c.callee and c.result_local() == 0:
+            n += 1
+            cl = closure_of(cx.prog, c.arg(1))
+            r = cl.local_expr(0, []).strip() if cl is not None else None
+            cx.check(r is not None and r.kind == 'unop' and r.op == 'Not' and m_erased(r.a), 'find-some', find, c.loc(),
+                     'the candidate is returned through Option::filter(|item| !is_erased(item))',
+                     fail_detail='find can return an item without having tested is_erased on it')
     cx.check(n >= 1, 'find-has-some', find, None, '%d Some site(s)' % n, fail_detail='no Some site in find')
     # the lookup both find and remove rely on is one binary search over all the items, by key
     fi = cx.prog.fn(SD + '::find_index')
@@ -266,13 +275,15 @@ def r16_3(cx):
     not_first = not_last = live = False
     for e, val, edge in facts:
         rel = as_relation((e, val))
-        if rel and rel[0] == 'Ne':
-            a, b = rel[1].strip(), rel[2].strip()
-            for x, y in ((a, b), (b, a)):
-                if x.has_call('find_index') and y.is_const_int(0):
+        # (idx != 0 or idx > 0; idx != len - 1 or idx < len - 1: the index found is below len either way)
+        if rel and str(rel[0]) in ('Ne', 'Gt', 'Lt'):
+            op, a, b = rel
+            a, b = a.strip(), b.strip()
+            for x, y, o in ((a, b, op), (b, a, {'Gt': 'Lt', 'Lt': 'Gt', 'Ne': 'Ne'}[op])):
+                if x.has_call('find_index') and y.is_const_int(0) and o in ('Ne', 'Gt'):
                     not_first = True
                 if x.has_call('find_index') and y.kind == 'binop' and y.op == 'Sub' and y.b.is_const_int(1) and is_call(y.a, 'len') \
-                        and rooted_in_param_field(y.a, 'items'):
+                        and rooted_in_param_field(y.a, 'items') and o in ('Ne', 'Lt'):
                     not_last = True
         x = m.erased_of(e)
         if x is not None and val is False:
@@ -289,9 +300,10 @@ def r16_3(cx):
         st = fn.blocks[pos.bb]['st'][pos.idx]
         v = fn.operand_expr(st['rv']['ops'][0]).strip()
         copied_before = v.pos is not None and fn.pos_dominates(v.pos, mk.pos)
-        if after and copied_before and fn.pos_dominates(mk.pos, pos):
+        # (the re-check `assert!(is_erased(item))` after marking is the marker's own contract: welcome, not required)
+        if copied_before and fn.pos_dominates(mk.pos, pos):
             ok = True
-    cx.check(ok, 'return-copy', fn, None, 'returns the copy taken before marking, after is_erased(item) re-checked true',
+    cx.check(ok, 'return-copy', fn, None, 'returns the copy taken before marking',
              fail_detail='remove does not return a pre-mark copy behind the is_erased re-check')
     pf = list(fn.calls(SD + '::pop_first'))
     pl = list(fn.calls(SD + '::pop_last'))
@@ -321,7 +333,8 @@ def r16_4(cx):
         e = fn.switch_expr(b)
         if e.kind == 'discr' and is_call(e.a, SL + '::back'):
             for s, vals in fn.edge_values(b).items():
-                if 1 not in vals:
+                # (the `otherwise -> unreachable` arm of a two-armed match on the Option is not a way to the push)
+                if 1 not in vals and fn.term(s)['k'] != 'unreachable':
                     cut.append((b, s))
         if is_call(e, 'PartialEq>::eq') or is_call(e, 'PartialEq::eq'):
             c = e.strip()
